@@ -31,3 +31,20 @@ Definition row_ok (e : N * string) : bool :=
 Lemma gen_vm_agrees :
   forallb row_ok subset = true /\ GenVm.STACK_MAX = N.of_nat VmModel.STACK_MAX /\ lookup_code "maxopcode" = Some VmModel.MAX_OPCODE.
 Proof. vm_compute. repeat split; reflexivity. Qed.
+
+(* the documented width and signedness of the push opcodes against the model: a push of all-one immediate bytes yields -1 exactly for
+   the opcodes the document calls signed, and 2^width - 1 for those it calls unsigned *)
+Local Open Scope Z_scope.
+Definition pushed_all_ones (c : N) (width : N) : option Z :=
+  match load (c :: repeat 0xFF%N (N.to_nat (width / 8)) ++ [0x30%N]) with
+  | LLoaded code => match run code [] with RDone (finished, v) => Some v | _ => None end
+  | _ => None
+  end.
+Definition push_row_ok (e : N * (N * bool)) : bool :=
+  let '(c, (w, sg)) := e in
+  match pushed_all_ones c w with
+  | Some v => if sg then v =? -1 else v =? 2 ^ Z.of_N w - 1
+  | None => false
+  end.
+Lemma gen_vm_doc_push_agrees : forallb push_row_ok doc_push = true /\ map fst doc_push = [1; 2; 3; 4; 5]%N.
+Proof. vm_compute. split; reflexivity. Qed.
